@@ -501,3 +501,22 @@ Definition run_raw_case (p : path) (k : mech_kind) (c : cred) (step : nat)
            (announced : Z) (avail : bytes) (e : ending) : state nat * rr_result :=
   let r := raw_read p announced avail e in
   (run_case p adv_v0 k c (Some (step, reaction_of_rr (rr_out r))), r).
+
+(* ------------------------------------------------------------------ *)
+(* A framed response as the broker encodes it: ApiVersions and SaslHandshake carry an error
+   code; SaslAuthenticate also a nullable error_message ([None] = null, [Some []] = the
+   empty string) and the SASL payload.  Every place that reads one — conn.go ApiVersions
+   [errorCode != 0], saslHandshake [resp.ErrorCode != 0], saslAuthenticate
+   [response.ErrorCode != 0]; transport.go [res.ErrorCode != 0] three times — decides on the
+   error CODE alone; the message only decorates the error. *)
+Record response := mkResp { error_code : Z; error_message : option bytes; resp_payload : bytes }.
+
+Definition refused (r : response) : bool := negb (error_code r =? 0).
+
+Definition reaction_of_response (r : response) : reaction :=
+  if refused r then RErr (error_code r) else ROk (resp_payload r).
+
+(* the scripted fault "the [step]-th response carries this code and message": a refusal
+   replaces the honest reaction, a response with code 0 leaves it alone *)
+Definition fault_of_response (step : nat) (r : response) : option (nat * reaction) :=
+  if refused r then Some (step, RErr (error_code r)) else None.
